@@ -255,7 +255,14 @@ func specByPattern(key string) specFn {
 			// alias of the Object field
 			a := e.addrOf(cc.args[0])
 			na := &Addr{Kind: a.Kind, Root: a.Root, Ref: a.Ref, Path: []int{0}}
-			return Val{T: cc.resT, Term: e.load(cc.st, na).Term}
+			content := e.define(cc.f.prefix+"content", "Int", e.load(cc.st, na).Term)
+			// the content map and the abstract observers describe the same object
+			e.declFun("content_owner", []string{"Int"}, "Int")
+			e.assume(Implies(Not(Eq(content, "0")), Eq(app("content_owner", content), a.Ref)), "an object's content map belongs to that object")
+			if isAtom(content) {
+				e.contentOwner[content] = a.Ref
+			}
+			return Val{T: cc.resT, Term: content}
 		}
 	case "GroupVersionKind":
 		return func(e *Exec, cc *callCtx) Val {
@@ -456,7 +463,19 @@ func (e *Exec) deepCopyObject(cc *callCtx) Val {
 			si := e.reg.structOf(p.Elem())
 			e.setComp(st, n, so, Store(e.comp(st, n, so), dst, app(si.ctor, content)))
 			e.declFun("deepcopy_of", []string{"Int"}, "Int")
-			e.assume(Eq(app("deepcopy_of", content), app(si.fields[0], Select(e.comp(st, n, so), src))), "")
+			srcContent := app(si.fields[0], Select(e.comp(st, n, so), src))
+			e.assume(Eq(app("deepcopy_of", content), srcContent), "")
+			if mt, ok := unalias(si.st.Field(0).Type()).Underlying().(*types.Map); ok {
+				dn, ds, vn, vs := e.mapNames(mt)
+				ln, ls := e.mapLenName(mt)
+				d, v, l := e.comp(st, dn, ds), e.comp(st, vn, vs), e.comp(st, ln, ls)
+				e.declFun("dcval", []string{"Any"}, "Any")
+				row := e.fresh(cc.f.prefix+"dccontent", "(Array String Any)")
+				e.assume(fmt.Sprintf("(forall ((kq String)) (! (= (select %s kq) (dcval (select (select %s %s) kq))) :pattern ((select %s kq))))", row, v, srcContent, row), "DeepCopy copies every value of the content map deeply")
+				e.setComp(st, dn, ds, Store(d, content, Select(d, srcContent)))
+				e.setComp(st, vn, vs, Store(v, content, row))
+				e.setComp(st, ln, ls, Store(l, content, Select(l, srcContent)))
+			}
 		}
 	}
 	if e.reg.sortOf(cc.resT) == "Any" {
